@@ -217,8 +217,10 @@ def run(chk, repo, tier):
                     if not {'wave', 'value'} <= stores:
                         cs = ' & '.join(('' if pol else 'not ') + fmt(c)[:70] for c, pol, _ in bs.conds[lp_['n_pre_conds']:])
                         miss.append(f'the wavelength unit is relabelled but {sorted({"wave", "value"} - stores)} stay as they are [{cs}]')
+        open_lookup = any('m:get(' in fmt(c) or 'callv(' in fmt(c) for l_ in [l2 for q in vpaths for l2 in q.state.loops if l2['func'] == fto.key][:1]
+                          for bs in l_['states'] for c, _p, _n in bs.conds[l_['n_pre_conds']:])
         chk.ob('C14-c', 'T-table', fto.key, f'a spectrum in {vu} is rescaled as a density when its wavelength unit changes',
-               (not miss) if n_br else None, '; '.join(miss[:1]) or f'{n_br} wavelength-unit branch(es), all rescale wave and value', fto.loc())
+               ((not miss) if not (miss and open_lookup) else None) if n_br else None, '; '.join(miss[:1]) or f'{n_br} wavelength-unit branch(es), all rescale wave and value', fto.loc())
     chk.ob('C14-c', 'N-reciprocal', fto.key, 'density branch', ok_w and n_w > 0,
            det_w or 'value is divided by exactly the factor that multiplies wave', fto.loc())
     chk.ob('C14-c', 'D-untouched', fto.key, 'unitless branch', ok_none and n_none > 0,
@@ -275,6 +277,9 @@ def run(chk, repo, tier):
         r, e = rr[0].ret, re_[0].ret
         ok = isinstance(r, Poly) and isinstance(e, Poly) and e == nf.PI * r
         det = f'exitance/radiance = {fmt(e / r) if isinstance(r, Poly) and isinstance(e, Poly) and len(r.terms) == 1 else "?"}'
+        from .extra_rules import _opaque_lookup
+        if not ok and (_opaque_lookup(r) or _opaque_lookup(e)):
+            ok, det = None, 'undecided: the flux conversion is taken from a table that is not evaluated: ' + det[:120]
         chk.ob('C14-d', 'N-sibling', 'radiometry.planck_exitance', f'= pi * planck_radiance [{label}]', ok,
                det, fe.loc())
         if vu.value == 'wlam':
